@@ -17,6 +17,14 @@ engineexport_initialize_{grid,graph} has exactly the length of the count passed 
 edge arrays, n_meshes*n_species / state and chemostat buffers, the tables), and the native return code is 0 for every
 script the Python setters accepted (3 engines x 2 spaces x the 4 accepted init_state_processing values, request lists
 with repeated times).
+Caller-keeps-its-script stream (c11_child.py): after setup(script) the caller assigns another system (fewer / more cells or
+species), request list or units system to ITS OWN script object — at once, mid-run, after the last step — then fetches twice,
+finalizes and sets the same object up again; observed at the native calls that WRITE into a caller-provided buffer
+(get_trajectory / get_tsample / get_state: buffer length >= what the engine writes) and by the sanitizer build (ctypes buffers
+from malloc).  Theorem `output_buffer_of_a_smaller_system_faults`.
+Top-of-int-range stream: tau-leap steps (grid and graph, reaction and diffusion channels) whose Poisson means lie in
+[2^24, 2^31), most within a few standard deviations of INT_MAX (molecule counts up to 2^33): every event count of a step, read
+off the trajectory, is an int in [0, 2^31-1]; plain, hardened and sanitizer (float-cast-overflow) builds.
 Correspondence: op `lifecycle` on the observed clock (as C09) for the runs of the hardened build; op `checked_step` — one
 Iterate() of the checked-access model from each recorded state of real runs (logged draws) gives the next recorded state.
 """
@@ -34,15 +42,19 @@ RULE = ("scripts: 3 engines x grid/graph (60 % degenerate shapes) x 4 policies x
         "networks with more directed reactions than 6 n_species and with more species than reactions x all 4 accepted processing modes for every engine and space (sanitizer subset: one job per engine x space x mode first) x "
         "coarse / fine time steps; each driven to completion with explicit samples, two output fetches with a sample in between, "
         "double finalize, then a call on the released engine; run on the plain, the assertion-hardened and (subset) the ASan/UBSan build; "
+        "histories in which the caller re-assigns system / request list / units of the script object it handed to setup (at once, mid-run, after the "
+        "last step) before fetching, then sets the object up again; tau-leap steps with Poisson means in [2^24, 2^31) (most within 1e6 of INT_MAX), "
+        "reaction and diffusion channels, grid and graph; "
         "non-trivial when >= 2 steps were made; distinct by script")
 ASSUMPTIONS = [
     "the random coarse-graining maps of cgmap_jobs use groups of CONSECUTIVE cells only: groups with coinciding centroids are the known finding "
     "cgmap-coinciding-centroids (known_findings.txt), exercised by two directed jobs that always run and report under that one key",
     "hardened libstdc++ (-D_GLIBCXX_ASSERTIONS) aborts on out-of-range operator[] and on distribution preconditions; ASan/UBSan report "
     "heap overflows, use after free, double free and undefined arithmetic they instrument — reads of uninitialised memory are NOT detected",
-    "sizes and Poisson counts stay below 2^31 (recorded size assumption): generators keep the explicit schemes bounded or the runs short",
+    "Poisson MEANS stay below 2^31 (at or beyond it the unchanged std::poisson_distribution<int> does not return: known, repaired separately); "
+    "the top-of-int-range stream goes up to INT_MAX - 1 with init_state_processing='none', amounts up to 2^33",
 ]
-TRUSTED = ["life_child.py (sandboxed driver of the real engine)", "g++ sanitizer run-times"]
+TRUSTED = ["life_child.py, c11_child.py (sandboxed drivers of the real engine)", "g++ sanitizer run-times"]
 
 
 def classify(stderr, status):
@@ -349,11 +361,321 @@ def centroid_jobs(ctx):
                 ctx.violation(KEY_CENTROIDS, "%s build: simulate_script(…, cgmap=%s) returned no sample" % (kind, j["cgmap"]), case, impl=ret.get("nsamples"), expected=">= 1")
 
 
+# ---------------------------------------------------------------------------------------------
+# the caller goes on using ITS OWN script object while the simulation is open (c11_child.py)
+# ---------------------------------------------------------------------------------------------
+KEY_OUTBUF = "output-buffer-smaller-than-engine-writes"
+
+
+def _run_c11_child(jobs, kind, parallel=8, chunk=3):
+    """histories of c11_child.py on one build; {job id: {"status", "results", "at", "stderr"}}"""
+    import os, shutil, tempfile
+    from concurrent.futures import ThreadPoolExecutor
+    so = common.build_engine(kind)
+    kenv = {}
+    if kind == "asan":
+        full = lc.child_env("asan")
+        kenv = {k: full[k] for k in ("LD_PRELOAD", "ASAN_OPTIONS", "UBSAN_OPTIONS")}
+        kenv["PYTHONMALLOC"] = "malloc"      # ctypes buffers from malloc (not from pymalloc arenas): the sanitizer sees their bounds
+    queue = [jobs[i:i + chunk] for i in range(0, len(jobs), chunk)]
+
+    def work(ch):
+        out = {}
+        pending = list(ch)
+        while pending:
+            d = tempfile.mkdtemp(prefix="c11_jobs_")
+            try:
+                spec = os.path.join(d, "jobs.json")
+                with open(spec, "w") as f:
+                    json.dump({"so": so, "guard": kind != "asan", "jobs": [{k: v for k, v in j.items() if k != "info"} for j in pending]}, f)
+                status, stdout = common.run_child("import sys; sys.argv = ['c11_child', %r]; import c11_child; c11_child.main()" % spec,
+                                                  timeout=30 + 20 * len(pending), kind_env=dict(kenv, TMPDIR=d))
+            finally:
+                shutil.rmtree(d, ignore_errors=True)
+            res, done, last_b, warn = {}, set(), None, {}
+            for ln in (stdout or "").splitlines():
+                if ln.startswith("R "):
+                    try:
+                        r = json.loads(ln[2:])
+                    except ValueError:
+                        continue
+                    res.setdefault(r["job"], []).append(r)
+                    last_b = None
+                elif ln.startswith("B "):
+                    jid, ci = ln[2:].rsplit(" ", 1)
+                    last_b = (jid, int(ci))
+                elif ln.startswith("W ") and last_b is not None:
+                    try:
+                        warn.setdefault(last_b[0], []).append(json.loads(ln[2:]))
+                    except ValueError:
+                        pass
+                elif ln.startswith("J "):
+                    done.add(ln[2:].strip())
+            nxt, failed = [], False
+            for j in pending:
+                jid = j["id"]
+                if jid in done:
+                    out[jid] = {"status": "ok", "results": res.get(jid, []), "at": None, "stderr": ""}
+                elif not failed:
+                    if status == "ok":
+                        raise common.CheckBroken("c11_child finished without completing job %s" % jid)
+                    at = last_b[1] if (last_b is not None and last_b[0] == jid) else len(res.get(jid, []))
+                    out[jid] = {"status": status, "results": res.get(jid, []), "at": at, "stderr": (stdout or "")[-1500:], "announced": warn.get(jid, [])}
+                    failed = True
+                else:
+                    nxt.append(j)
+            pending = nxt
+        return out
+
+    final = {}
+    with ThreadPoolExecutor(max_workers=max(1, parallel)) as ex:
+        for o in ex.map(work, queue):
+            final.update(o)
+    return final
+
+
+def caller_script_jobs(ctx, n, tag="cs"):
+    """setup(script) — the caller edits ITS script object (another system with fewer / more cells or species, another request
+    list, another units system) at once / in the middle of the run / after the last step — further calls, two fetches,
+    finalize, and the same script object set up again for the next run.  Judged at the native calls that write into a buffer."""
+    rng = ctx.rng
+    jobs = []
+    for i in range(n):
+        option = lc.OPTIONS[i % 3]
+        mode = "none" if option == "euler" else "auto"
+        ka = ["grid", "graph"][(i // 3) % 2]
+        kb = ["grid", "graph"][(i // 6) % 2]
+        pol = ["on_iteration", "on_t_sample", "on_interval"][(i // 2) % 3]
+        Sa, ia = lc.gen_script(rng, option, space_kind=ka, units=False, max_steps=12, mode=mode, policy=pol, zero_tmax=False, degenerate=rng.random() < 0.3)
+        want_smaller = (i % 4 != 3)
+        for _ in range(40):
+            Sb, ib = lc.gen_script(rng, option, space_kind=kb, units=False, max_steps=12, mode=mode, zero_tmax=False, degenerate=rng.random() < 0.5)
+            sa, sb = ia["nsp"] * ia["n"], ib["nsp"] * ib["n"]
+            if sa != sb and ((sb < sa) == want_smaller or sa == 1):
+                break
+        for S in (Sa, Sb):
+            if not S["kw"]["t_sample"]:
+                S["kw"]["t_sample"] = [0.0, S["kw"]["time_step"], 3 * S["kw"]["time_step"]]
+            S["kw"].setdefault("t_max", max(S["kw"]["t_sample"]) + S["kw"]["time_step"])
+        edits = [{"call": "edit_input", "script": 0, "what": "system", "from": 1}]
+        if rng.random() < 0.5:
+            edits.append({"call": "edit_input", "script": 0, "what": rng.choice(["t_sample", "units"]), "from": 1})
+            rng.shuffle(edits)
+        when = ["at_once", "mid_run", "after_last_step"][(i // 3) % 3]
+        drive = [{"call": rng.choice(["iterate", "iterate", "sample", "iterate_n"]), "n": rng.randint(1, 4)} for _ in range(rng.randint(1, 4))]
+        calls = [{"call": "setup", "script": 0}]
+        if when == "at_once":
+            calls += edits + drive
+        elif when == "mid_run":
+            calls += drive + edits + [{"call": "iterate"}, {"call": "sample"}]
+        else:
+            calls += drive + [{"call": "iterate_n", "n": 3000}] + edits
+        calls += [{"call": "get_output"}, {"call": "sample"}, {"call": "get_progress"}, {"call": "get_output"}, {"call": "finalize"}]
+        if rng.random() < 0.6:
+            # the next run: the same (edited) script object
+            calls += [{"call": "setup", "script": 0}, {"call": "iterate_n", "n": rng.randint(1, 50)}, {"call": "get_output"}, {"call": "finalize"}]
+        jobs.append({"id": "%s%d" % (tag, i), "option": option, "scripts": [Sa, Sb], "calls": calls,
+                     "info": {"when": when, "sizes": [ia["nsp"] * ia["n"], ib["nsp"] * ib["n"]], "spaces": [ka, kb], "policy": pol}})
+    for kind in ("plain", "hard", "asan"):
+        res = _run_c11_child(jobs, kind, parallel=ctx.n(8, 8))
+        for j in jobs:
+            r = res[j["id"]]
+            info = j["info"]
+            case = {"c11_child": True, "job": {k: j[k] for k in ("id", "option", "scripts", "calls", "info")}, "build": kind}
+            ctx.count("caller_script_edit_%s_%s" % (info["when"], kind))
+            if kind == "plain":
+                ctx.count("caller_script_new_system_%s" % ("smaller" if info["sizes"][1] < info["sizes"][0] else "larger"))
+                ctx.case(("caller-script", json.dumps(j["calls"]), json.dumps(j["scripts"], sort_keys=True)), nontrivial=True,
+                         sample={"op": "caller-edits-its-script", "engine": j["option"], "when": info["when"], "state_sizes": info["sizes"], "spaces": info["spaces"]})
+            for f in _outbuf_failures(j, r):
+                ctx.violation(f[0], "%s build: %s" % (kind, f[1]), case, impl=f[2], expected=f[3])
+            if r["status"] != "ok":
+                at = r["at"]
+                call = j["calls"][at]["call"] if at is not None and at < len(j["calls"]) else "end-of-job"
+                what = classify(r.get("stderr", ""), r["status"])
+                if r.get("announced"):
+                    continue          # already reported with the sizes (the sanitizer stopped the announced write)
+                ctx.violation("%s:%s:caller-script" % (what, call), "%s build: %s in %s() (call %d) after the caller edited its own script object (%s)"
+                              % (kind, what, call, at, info["when"]), case, impl={"status": r["status"], "stderr": r.get("stderr", "")[-600:]},
+                              expected="no memory error, no abort")
+                continue
+            raised = [x for x in r["results"] if "raised" in x]
+            if raised:
+                ctx.violation("raised", "a lifecycle call raised in a history of valid scripts (the caller edits its own script object): %s" % raised[0]["raised"], case)
+
+
+def _outbuf_failures(job, r):
+    """every native call that writes into a caller-provided buffer was handed at least as many doubles as the engine writes"""
+    bad = []
+    recs = [(x["i"], w) for x in r.get("results", []) for w in x.get("writes", [])] + [(r.get("at"), w) for w in r.get("announced", [])]
+    for ci, w in recs:
+        if w.get("too_small"):
+            call = job["calls"][ci]["call"] if ci is not None and ci < len(job["calls"]) else "?"
+            bad.append((KEY_OUTBUF + ":" + w["fn"].replace("engineexport_", ""),
+                        "%s() (call %s): %s is handed a buffer of %d doubles, the engine writes %d (%d samples x %s values it was initialised with): "
+                        "out-of-bounds write of %d bytes" % (call, ci, w["fn"], w["buffer_length"], w["engine_writes"], w["nsamples"], w["size"],
+                                                             8 * (w["engine_writes"] - w["buffer_length"])),
+                        w["buffer_length"], ">= %d" % w["engine_writes"]))
+    return bad
+
+
+# ---------------------------------------------------------------------------------------------
+# event counts at the top of the int range (tau-leap): Poisson means in [2^24, 2^31)
+# ---------------------------------------------------------------------------------------------
+INT_MAX = 2 ** 31 - 1
+KEY_EVENTS = "event-count-outside-int-range"
+
+
+def _top_mean(rng):
+    """a Poisson mean below 2^31 (at or beyond it the UNCHANGED std::poisson_distribution<int> does not return: known, repaired
+    separately): INT_MAX minus little (within a few standard deviations, 46341, of the end of the range), or log-uniform above 2^24"""
+    r = rng.random()
+    if r < 0.45:
+        return INT_MAX - rng.choice([1, 2, 647, 1000, 5000, 20000, 46341, 100000])
+    if r < 0.7:
+        return INT_MAX - rng.randint(1, 400000)
+    if r < 0.85:
+        return int(2 ** rng.uniform(30.5, 31)) - 2000 if rng.random() < 0.5 else rng.randint(2000000001, INT_MAX - 1000)
+    return int(2 ** rng.uniform(24, 30.5)) | 1
+
+
+def big_count_jobs(ctx, n, tag="bc"):
+    """tau-leap steps whose event counts are Poisson draws with means at the top of the int range (molecule counts around and
+    above 2^31 with rate constant x time step <= 1).  Reaction template: A -> B (irreversible, no diffusion): per cell and step
+    the number of events e = A_before - A_after is an integer in [0, 2^31-1] and B grows by e.  Diffusion template: one species,
+    one populated cell, one step: every neighbour receives e_j in [0, 2^31-1], the source loses their sum."""
+    rng = ctx.rng
+    jobs = []
+    for i in range(n):
+        kind_sp = ["grid", "graph"][i % 2]
+        template = "reaction" if i % 3 != 2 else "diffusion"
+        m = _top_mean(rng)
+        ncell = rng.randint(1, 3) if template == "reaction" else rng.randint(2, 3)
+        if template == "reaction":
+            p = rng.choice([1.0, 1.0, 0.5, 0.25])                   # k * dt (exact in doubles)
+            dt = rng.choice([1.0, 0.5, 0.25]) if p < 1 else rng.choice([1.0, 0.5, 2.0])
+            k = p / dt
+            nsteps = 1 if p == 1.0 else rng.randint(1, 3)
+            big = int(m / p)                                        # k * big * dt <= m < 2^31 ; big itself up to 2^33
+            A = [rng.choice([big, big, 0, 7, big - rng.randint(0, 5000)]) for _ in range(ncell)]
+            A[rng.randrange(ncell)] = big
+            B = [rng.choice([0, 0, 3, 2 ** 31 + 5]) for _ in range(ncell)]
+            species = [{"label": "A", "density": 0, "D": 0}, {"label": "B", "density": 0, "D": 0}]
+            reactions = [{"eq": "A -> B", "k+": k, "k-": 0}]
+            state = [float(v) for v in A + B]
+        else:
+            # rate per channel = D (unit cells / unit nodes, unit surfaces and distances); p = D * dt per channel
+            p = rng.choice([0.25, 0.125, 0.5])
+            dt = rng.choice([1.0, 0.5])
+            D = p / dt
+            nsteps = 1
+            big = int((m - 1000) / p)
+            src = rng.randrange(ncell)
+            A = [0] * ncell
+            A[src] = big
+            species = [{"label": "A", "density": 0, "D": D}]
+            reactions = []
+            state = [float(v) for v in A]
+        net = {"species": species, "reactions": reactions, "environments": ["a"]}
+        if kind_sp == "grid":
+            space = {"type": "grid", "w": ncell, "h": 1, "d": 1, "cell_volume": 1.0, "cell_env": [0] * ncell, "boundary_conditions": {}}
+            nbrs = {c: [j for j in (c - 1, c + 1) if 0 <= j < ncell] for c in range(ncell)}
+        else:
+            space = {"type": "graph", "nodes": [{"volume": 1.0, "environment": 0} for _ in range(ncell)],
+                     "edges": [{"nodes": [c, c + 1], "surface": 1.0, "distance": 1.0} for c in range(ncell - 1)]}
+            nbrs = {c: [j for j in (c - 1, c + 1) if 0 <= j < ncell] for c in range(ncell)}
+        S = {"system": {"network": net, "space": space, "state": state},
+             "kw": {"t_sample": [dt * q for q in range(nsteps + 1)], "time_step": dt, "t_max": dt * nsteps, "sampling_policy": "on_t_sample",
+                    "rng_seed": rng.randint(0, 2 ** 31 - 1), "init_state_processing": "none"}}      # ("auto" redistributes the molecules over the cells: a cell may then exceed the bound on the mean)
+        calls = [{"obj": 0, "call": "setup", "script": 0}, {"obj": 0, "call": "iterate_n", "n": nsteps + 2},
+                 {"obj": 0, "call": "get_output", "full": True}, {"obj": 0, "call": "finalize"}]
+        jobs.append({"id": "%s%d" % (tag, i), "engines": ["tauleap"], "scripts": [S], "calls": calls, "timeout": 20,
+                     "info": {"template": template, "space": kind_sp, "ncell": ncell, "mean": m, "p": p, "nsteps": nsteps,
+                              "nbrs": {str(c): v for c, v in nbrs.items()}}})
+    for kind in ("plain", "hard", "asan"):
+        res = lc.run_jobs([{k: v for k, v in j.items() if k != "info"} for j in jobs], kind=kind, chunk=ctx.n(3, 6), parallel=ctx.n(8, 8), stall=ctx.n(15, 60))
+        for j in jobs:
+            r = res[j["id"]]
+            info = j["info"]
+            case = {"job": {k: j[k] for k in ("id", "engines", "scripts", "calls", "info")}, "build": kind, "big_counts": True}
+            ctx.count("big_counts_%s_%s_%s" % (info["template"], info["space"], kind))
+            if kind == "plain":
+                ctx.count("poisson_mean_%s" % ("within_1e6_of_int_max" if INT_MAX - info["mean"] <= 10 ** 6 else ("above_2e9" if info["mean"] > 2 * 10 ** 9 else "2^24_to_2e9")))
+                ctx.case(("big-counts", json.dumps(j["scripts"], sort_keys=True)), nontrivial=True,
+                         sample={"op": "tauleap-top-of-int-range", "template": info["template"], "space": info["space"], "poisson_mean": info["mean"]})
+            if r["status"] != "ok":
+                at = r["at"] if r["at"] is not None else len(r["results"])
+                call = j["calls"][at]["call"] if at < len(j["calls"]) else "end-of-job"
+                what = classify(r.get("stderr", ""), r["status"])
+                if r["status"] == "timeout":
+                    what = "hang"
+                ctx.violation("%s:%s:big-counts" % (what, call), "%s build: %s in %s() of a tau-leap run with a Poisson mean of %d (< 2^31)" % (kind, what, call, info["mean"]),
+                              case, impl={"status": r["status"], "stderr": r.get("stderr", "")[-600:]}, expected="no undefined arithmetic, no abort, the call returns")
+                continue
+            raised = [x for x in r["results"] if "raised" in x]
+            if raised:
+                ctx.violation("raised", "a lifecycle call raised on a valid script with large molecule counts: %s" % raised[0]["raised"], case)
+                continue
+            for x in r["results"]:
+                for key, what, impl, exp in lc.init_failures(x):
+                    ctx.violation(key, "%s build: %s" % (kind, what), case, impl=impl, expected=exp)
+            ret = [x["ret"] for c, x in zip(j["calls"], r["results"]) if c["call"] == "get_output"][0]
+            f = event_count_failure(j["scripts"][0], info, ret)
+            if f:
+                ctx.violation(KEY_EVENTS + ":" + info["template"], "%s build: %s" % (kind, f[0]), case, impl=f[1], expected=f[2])
+
+
+def event_count_failure(S, info, ret):
+    """the property's predicate on the trajectory (species-major records): every event count of a step is an int in [0, 2^31-1]"""
+    import math
+    nc = info["ncell"]
+    data = ret.get("data") or []
+    nsp = 2 if info["template"] == "reaction" else 1
+    size = nsp * nc
+    if not data or len(data) % size or any(not math.isfinite(v) for v in data):
+        return ("the trajectory holds %d values (records of %d), or non-finite ones" % (len(data), size), data[:8], "finite records")
+    recs = [data[q:q + size] for q in range(0, len(data), size)]
+    if recs[0] != [float(v) for v in S["system"]["state"]]:
+        return ("the record at t = 0 is not the script's state", recs[0][:8], S["system"]["state"][:8])
+    for q in range(1, len(recs)):
+        a, b = recs[q - 1], recs[q]
+        if info["template"] == "reaction":
+            for c in range(nc):
+                e = a[c] - b[c]
+                if not (0 <= e <= INT_MAX and e == int(e)):
+                    return ("step %d, cell %d: A goes from %d to %d: %d events of A -> B (mean %s), not an int in [0, 2^31-1]" % (q, c, a[c], b[c], e, a[c] * info["p"]),
+                            e, "0 <= events <= 2147483647")
+                if b[nc + c] - a[nc + c] != e:
+                    return ("step %d, cell %d: A loses %d, B gains %d" % (q, c, e, b[nc + c] - a[nc + c]), b[nc + c] - a[nc + c], e)
+        else:
+            src = [c for c in range(nc) if a[c] != 0]
+            if q > 1 or len(src) != 1:
+                break
+            s = src[0]
+            got = 0
+            for c in range(nc):
+                if c == s:
+                    continue
+                e = b[c] - a[c]
+                if c not in info["nbrs"][str(s)]:
+                    if e != 0:
+                        return ("cell %d, not a neighbour of the populated cell %d, changes by %d" % (c, s, e), e, 0)
+                    continue
+                if not (0 <= e <= INT_MAX and e == int(e)):
+                    return ("step 1: %d molecules hop from cell %d to cell %d (mean %s): not an int in [0, 2^31-1]" % (e, s, c, a[s] * info["p"]), e, "0 <= events <= 2147483647")
+                got += e
+            if a[s] - b[s] != got:
+                return ("the populated cell loses %d, its neighbours gain %d" % (a[s] - b[s], got), a[s] - b[s], got)
+    return None
+
+
 def run(ctx):
     centroid_jobs(ctx)
     explore(ctx, ctx.n(105, 3000), ctx.n(24, 600), p_degenerate=0.6, tag="m")
     abandon_histories(ctx, ctx.n(8, 48))
     cgmap_jobs(ctx, ctx.n(10, 60))
+    caller_script_jobs(ctx, ctx.n(12, 120))
+    big_count_jobs(ctx, ctx.n(12, 120))
     if not _unlisted(ctx):
         checked_correspondence(ctx)
     # the runner starts the failing-input search only when NO violation was reported; this check always reports the listed
@@ -503,6 +825,21 @@ def replay(ctx, rec):
     case = rec.get("case", rec)
     job = dict(case["job"])
     kind = case.get("build", "hard")
+    if case.get("c11_child"):
+        r = _run_c11_child([job], kind, parallel=1)[str(job["id"])]
+        detail = {"build": kind, "status": r["status"], "at": r["at"], "stderr": r.get("stderr", "")[-800:]}
+        bad = _outbuf_failures(job, r)
+        if bad:
+            detail["output_buffers"] = [{"key": f[0], "what": f[1]} for f in bad[:3]]
+            return False, detail
+        if r["status"] != "ok":
+            detail["class"] = classify(r.get("stderr", ""), r["status"])
+            return False, detail
+        raised = [x["raised"] for x in r["results"] if "raised" in x]
+        if raised:
+            detail["raised"] = raised[0]
+            return False, detail
+        return True, detail
     job.setdefault("timeout", 20)
     res = lc.run_jobs([job], kind=kind, parallel=1, stall=60)
     r = res[str(job["id"])]
@@ -515,6 +852,12 @@ def replay(ctx, rec):
     if inits:
         detail["marshalling"] = [{"key": f[0], "what": f[1]} for f in inits[:3]]
         return False, detail
+    if case.get("big_counts"):
+        ret = [x["ret"] for c, x in zip(job["calls"], r["results"]) if c["call"] == "get_output"][0]
+        f = event_count_failure(job["scripts"][0], job["info"], ret)
+        if f:
+            detail["event_counts"] = f[0]
+            return False, detail
     if rec.get("key") == "result-depends-on-build":
         res2 = lc.run_jobs([dict(job)], kind="plain", parallel=1, stall=60)
         h1 = [x["ret"]["hash"] for c, x in zip(job["calls"], r["results"]) if c["call"] == "get_output"]
